@@ -536,7 +536,7 @@ func checkAgentIdentifier(c *report.Ctx) {
 				continue
 			}
 			c.Check("R-WHO", "L/rapi."+rf.fn+"/route/"+key, "the route requires a valid extension identifier (wrapped in AgentUniqueIdentifierHeaderValidator) and is served by "+ctor,
-				in("AgentUniqueIdentifierHeaderValidator", got.wrappers...) && got.handlerCtor == "L/rapi/handler."+ctor, got.pos, 1, "handler %s, wrappers %v", got.handlerCtor, got.wrappers)
+				oneOf("AgentUniqueIdentifierHeaderValidator", got.wrappers...) && got.handlerCtor == "L/rapi/handler."+ctor, got.pos, 1, "handler %s, wrappers %v", got.handlerCtor, got.wrappers)
 		}
 		if rf.fn == "ExtensionsRouter" {
 			var reg *routeInfo
